@@ -33,6 +33,12 @@ CHECKS = {
                      "and Scfg.Model.insertSpecOK/insertCtlSpecOK/joinReturnsSpecOK judge every completed real call.", ref="§7 C14",
                 note="Trusted: Lean kernel + the three standard axioms; the hand-written model corresponds to the code only as far as the random histories exercise it (thousands of steps per run, 0 mismatches required); "
                      "lifting of the rewire theorems to whole insert_block calls is by the decider on real outputs, not yet an a-priori theorem."),
+    "C18": dict(cat="proof", tech="Lean 4: theorems requests_fresh / render_inj / names_fresh / fresh_vs_existing for any request sequence; prefix-table hypothesis evaluated on kinds regenerated from source; NameGenerator correspondence; clobber runs on the real pipeline",
+                text="Scfg.C18.requests_fresh proves by induction over arbitrary request sequences that no (kind, index) is handed out twice; render_inj/names_fresh lift this to the rendered strings for any kind table passing the decidable check prefixesOK, "
+                     "which is evaluated on the (namespace, kind) table the translator extracts from /repo's source on every run; fresh_vs_existing covers names present before (what NameGenerator.reserve establishes). "
+                     "The real NameGenerator is compared with the model on random request sequences, and the real pipeline is run on closed CFGs whose block names lie in the generator's namespace and across dict write/read round trips.", ref="§7 C18",
+                note="Trusted: Lean kernel + standard axioms; translator harness/translate.py (kinds it cannot resolve are reported as a broken tie); str(int) = Nat.repr on naturals (exercised). "
+                     "`reserve`'s regular-expression parsing is exercised by the clobber runs, not modelled in Lean. Reload between stages is currently blocked by to_dict raising TypeError on restructured graphs (see C15)."),
 }
 
 NOT_YET = {}
